@@ -10,6 +10,7 @@ import (
 	"verifharness/extract"
 	"verifharness/fw"
 	"verifharness/props/c03"
+	"verifharness/props/c04"
 	"verifharness/props/c06"
 	"verifharness/props/c07"
 	"verifharness/props/c08"
@@ -20,6 +21,7 @@ import (
 
 var registry = map[string]func() fw.Prop{
 	"C03": func() fw.Prop { return c03.Prop{} },
+	"C04": func() fw.Prop { return c04.Prop{} },
 	"C06": func() fw.Prop { return c06.Prop{} },
 	"C07": func() fw.Prop { return c07.Prop{} },
 	"C08": func() fw.Prop { return c08.Prop{} },
